@@ -5,11 +5,11 @@ From Miller Require Import Base.Record C06.Model C06.Harness C11.Model C11.Proof
 From Coq Require Import Permutation.
 Open Scope Z_scope.
 
-(* ---- the checker run on mlr's output is sound: acceptance implies the specification ... *)
-Theorem C09_check_sort_sound : forall ks inp out,
-  check_sort dinfer natsort_less ks inp out = true -> sort_spec dinfer natsort_less ks inp out.
-Proof. exact (check_sort_sound dinfer natsort_less). Qed.
-Print Assumptions C09_check_sort_sound.
+(* ---- the checker run on mlr's output decides the specification exactly ... *)
+Theorem C09_check_sort_correct : forall ks inp out,
+  check_sort dinfer natsort_less ks inp out = true <-> sort_spec dinfer natsort_less ks inp out.
+Proof. exact (fun ks inp out => conj (check_sort_sound dinfer natsort_less ks inp out) (check_sort_complete dinfer natsort_less ks inp out)). Qed.
+Print Assumptions C09_check_sort_correct.
 
 (* ... and the specification says: a permutation of the input with every record unchanged, *)
 Theorem C09_sorted_output_is_permutation : forall ks inp out,
@@ -68,6 +68,25 @@ Proof.
   exact (ex_intro _ (B "9007199254740992") (ex_intro _ (B "9007199254740992.0") (ex_intro _ (B "9007199254740993") num_not_transitive_witness))).
 Qed.
 Print Assumptions C09_numeric_total_preorder_all_int64_refuted.
+
+(* several keys in precedence order: the chain of lexical / case-folded / numeric comparators is a total preorder on
+   value tuples (same premise on integers as above; natural-order keys excluded: natsort has no such law) *)
+Theorem C09_key_chain_total_preorder_partial : forall (exact : Z -> Prop) fl,
+  (forall x y, exact x -> exact y -> x < y -> fkey (float_of_int x) < fkey (float_of_int y)) ->
+  (forall f, In f fl -> In f [Ff; Fr; Fc; Fcr; Fnf; Fnr]) ->
+  total_preorder_on (fun l => List.length l = List.length fl /\ Forall (num_dom dinfer exact) l) (chain_cmp dinfer natsort_less fl).
+Proof. exact (fun exact fl Hm => std_chain_preorder dinfer natsort_less exact Hm fl). Qed.
+Print Assumptions C09_key_chain_total_preorder_partial.
+
+(* flag mapping: every descending flag is its ascending comparator with the arguments exchanged, including the
+   deliberately inverted natural pair (-t selects NaturalDescendingComparator, which sorts ascending) *)
+Theorem C09_descending_flags_flip_ascending : forall a b,
+  flag_cmp dinfer natsort_less Fr a b = flag_cmp dinfer natsort_less Ff b a
+  /\ flag_cmp dinfer natsort_less Fcr a b = flag_cmp dinfer natsort_less Fc b a
+  /\ flag_cmp dinfer natsort_less Ftr a b = flag_cmp dinfer natsort_less Ft b a
+  /\ flag_cmp dinfer natsort_less Fnr a b = - flag_cmp dinfer natsort_less Fnf a b.
+Proof. exact (fun a b => conj eq_refl (conj eq_refl (conj eq_refl eq_refl))). Qed.
+Print Assumptions C09_descending_flags_flip_ascending.
 
 (* numeric collation: numbers before empties and strings, reversed for -nr; empties before strings *)
 Theorem C09_numeric_collation : forall a b,
